@@ -39,6 +39,9 @@ pub trait Alpha {
 
     #[subscription(name = "sub" => "item", unsubscribe = "unsub", item = u64)]
     async fn sub(&self, from: u64, step: Option<u64>) -> SubscriptionResult;
+
+    #[subscription(name = "feed" => "fed", unsubscribe = "unfeed", aliases = ["ns.feedalias"], unsubscribe_aliases = ["ns.unfeedalias", "stopfeed"], item = u64)]
+    async fn feed(&self) -> SubscriptionResult;
 }
 
 /// no namespace, by-name encoding
@@ -52,6 +55,10 @@ pub trait Beta {
 
     #[subscription(name = "watch", unsubscribe = "unwatch", item = String, param_kind = map)]
     async fn watch(&self, key: String) -> SubscriptionResult;
+
+    /// wire names that are neither the snake_case nor the lowerCamelCase form of anything: given by `rename`, or an identifier with a trailing underscore
+    #[method(name = "renamed", param_kind = map)]
+    fn renamed(&self, #[argument(rename = "ID")] id: u64, #[argument(rename = "entry-id")] entry: Option<u32>, type_: Option<u8>) -> RpcResult<(u64, Option<u32>, Option<u8>)>;
 }
 
 /// namespace with the default separator
